@@ -253,7 +253,9 @@ def gen_scenario(seed, cfg):
                                              (2, {'kind': 'shuffle', 'seed': sim.subseed('oshuf')})])
         ops.append(op)
     wmode = 'error' if sim.coin('warnings_error', 0.1) else 'default'
-    return {'seed': seed, 'sources': sources, 'ops': ops, 'warnings': wmode, 'digest_gen': sim.digest()}
+    # (drawn last, so that every earlier choice of every scenario stays as it was)
+    any_typed = sim.coin('any_typed', 0.15)
+    return {'seed': seed, 'sources': sources, 'ops': ops, 'warnings': wmode, 'any_typed': any_typed, 'digest_gen': sim.digest()}
 
 
 ###############################################################################
@@ -525,6 +527,10 @@ def do_op(name, h, h2, op, pool, schema, msg_types):
         if not cands:
             return obj.but(), 'same'
         fname, val = cands[op['sel'] % len(cands)]
+        if hasattr(obj, 'data_type') and (op['sel'] >> 13) == 0:
+            # the stored type as a scalar field: widened (or set to a union) through the API; iterating
+            # a Flag only yields its single-bit members, so the composite ones are offered here
+            fname, val = 'data_type', (DataType.ANY, DataType.ANY, DataType.PRIMITIVE, DataType.ITEM)[(op['sel'] >> 11) & 3]
         return obj.but(**{fname: val}), ('changed', fname, val)
     if name == 'quant_redomain':
         qs = _quantifiers(obj)
@@ -800,6 +806,21 @@ def execute(sc, stats=None, upto=None, trace=None):
     except Exception as e:
         count('source_rejected')
         return None
+    if sc.get('any_typed'):
+        # trees also come from code that passes data_type= itself: a reference whose stored type is
+        # the widest there is (accepted by the constructors), and a tree built around it
+        from hpl.types import DataType as _DT
+        for h in list(pool):
+            leaf = next((n for n in h.obj.iterate() if type(n).__name__ in ('HplVarReference', 'HplFieldAccess')), None)
+            if leaf is None:
+                continue
+            try:
+                wide = leaf.but(data_type=_DT.ANY)
+                pool.append(Handle(wide, copy.deepcopy(wide), 'api:any_typed_reference'))
+                count('any_typed_references')
+            except Exception:
+                pass
+            break
     # aliases bound by events must map to a schema for property-level checks
     for h in pool:
         if h.kind in ('property', 'specification'):
@@ -1060,13 +1081,13 @@ def make_replay(sc, v):
         o['name'] = nm
     sc = dict(sc, ops=ops)
     return {'property': PROP, 'class': v['class'], 'detail': v['detail'], 'failing_op': v['op'], 'step': v['step'],
-            'sources': sc['sources'], 'ops': sc['ops'], 'seed': sc.get('seed'), 'warnings_filter': sc.get('warnings', 'default'),
+            'sources': sc['sources'], 'ops': sc['ops'], 'seed': sc.get('seed'), 'warnings_filter': sc.get('warnings', 'default'), 'any_typed': bool(sc.get('any_typed')),
             'pythonhashseed': os.environ.get('PYTHONHASHSEED'),
             'how_to_replay': '/venv/bin/python /verif/check.py C16 --replay <this file>'}
 
 
 def replay(doc):
-    sc = {'sources': doc['sources'], 'ops': doc['ops'], 'warnings': doc.get('warnings_filter', 'default')}
+    sc = {'sources': doc['sources'], 'ops': doc['ops'], 'warnings': doc.get('warnings_filter', 'default'), 'any_typed': doc.get('any_typed', False)}
     prep()
     return isolated_execute(sc)
 
